@@ -13,13 +13,15 @@ def gen(ctx, n, seed, big=False):
     return [json.loads(x) for x in open(out)]
 
 
-def rerun(ctx, rec):
+def rerun(ctx, rec, before=()):
     vh = ctx.build(PKG)
     d = ctx.sub("replay")
     i, o = os.path.join(d, "in.ndjson"), os.path.join(d, "out.ndjson")
-    open(i, "w").write(json.dumps(rec) + "\n")
-    ctx.run([vh, "seq-rerun", "-in", i, "-out", o], timeout=600)
-    new = json.loads(open(o).read())
+    with open(i, "w") as fh:       # the cases `before` are executed first, in the same fresh process
+        for b in list(before) + [rec]:
+            fh.write(json.dumps(b) + "\n")
+    ctx.run([vh, "seq-rerun", "-in", i, "-out", o], timeout=1800)
+    new = json.loads(open(o).read().splitlines()[-1])
     bad = ctx.validate("Trace_Sequencer", [new], shards=1)
     if bad and bad[0][1] and bad[0][1].get("genbug"):
         raise Machinery("song outside the property's domain (generator bug): id=%s" % rec.get("id"))
@@ -83,6 +85,7 @@ def run(ctx):
         if info and info.get("genbug"):
             raise Machinery("generator produced a song outside the property's domain: %s" % json.dumps(r)[:600])
         fails.append(Failure(signature(r, info), describe(r, info), {"family": "sequencer", "record": r}))
+        fails[-1].before = [x for x in recs[max(0, idx - 400):idx]]
     fails.sort(key=lambda f: size(f.payload["record"]))
     nt = {"num>=8", "sigchange", "crossbar", "multitrack", "long"}
     ctx.count(len(recs), [hash(json.dumps([r["res"], r["bars"]], sort_keys=True)) for r in recs if nt & set(r["feat"])],
@@ -97,13 +100,13 @@ def run(ctx):
     ctx.cov["distinct_signatures"] = len({(b["num"], b["den"]) for r in recs for b in r["bars"]})
 
     def confirm(f):
-        ok, new, info = rerun(ctx, f.payload["record"])
-        return ok
+        return rerun(ctx, f.payload["record"])[0]
+    confirm.in_context = lambda before, f: rerun(ctx, f.payload["record"], before)[0]
     ctx.report(fails, confirm)
 
 
 def replay(ctx, payload):
     rec = payload["payload"]["record"]
-    ok, new, info = rerun(ctx, rec)
+    ok, new, info = rerun(ctx, rec, payload["payload"].get("context") or ())
     print(json.dumps({"info": info})[:3000])
     return ok
